@@ -720,6 +720,23 @@ def _emit_expr(v: Union[int, float, str]) -> str:
     return str(v)
 
 
+def _nonneg_ms_lines(indent: str, var: str, expr: Union[int, float, str]) -> List[str]:
+    """Declare ``unsigned long var`` from a millisecond expression, treating negatives as 0.
+
+    Converting a negative float to ``unsigned long`` is undefined behaviour (and a
+    negative int wraps to ~4 billion), which turned ``play_tone(440, -5)`` into an
+    endless delay.
+    """
+
+    if isinstance(expr, (int, float)) and not isinstance(expr, bool):
+        value = expr if expr > 0 else (0.0 if isinstance(expr, float) else 0)
+        return [f"{indent}unsigned long {var} = static_cast<unsigned long>({_emit_expr(value)});"]
+    return [
+        f"{indent}float {var}_f = static_cast<float>({_emit_expr(expr)});",
+        f"{indent}unsigned long {var} = ({var}_f > 0.0f) ? static_cast<unsigned long>({var}_f) : 0UL;",
+    ]
+
+
 def _format_float(value: float) -> str:
     """Format a float literal suitable for C++ source emission."""
 
@@ -2296,9 +2313,7 @@ def _emit_block(
             lines.append(f"{indent}  }}")
             if getattr(node, "duration_ms", None) is not None:
                 duration_expr = _emit_expr(node.duration_ms) if node.duration_ms is not None else "0"
-                lines.append(
-                    f"{indent}  unsigned long __redu_duration = static_cast<unsigned long>({duration_expr});"
-                )
+                lines.extend(_nonneg_ms_lines(indent + "  ", "__redu_duration", node.duration_ms))
                 lines.append(f"{indent}  if (__redu_duration > 0UL) {{")
                 lines.append(f"{indent}    delay(__redu_duration);")
                 lines.append(f"{indent}  }}")
@@ -2326,12 +2341,8 @@ def _emit_block(
             else:
                 lines.append(f"{indent}  float __redu_freq_target = {last_var};")
             lines.append(f"{indent}  if (__redu_freq_target < 0.0f) {{ __redu_freq_target = 0.0f; }}")
-            lines.append(
-                f"{indent}  unsigned long __redu_on_ms = static_cast<unsigned long>({_emit_expr(node.on_ms)});"
-            )
-            lines.append(
-                f"{indent}  unsigned long __redu_off_ms = static_cast<unsigned long>({_emit_expr(node.off_ms)});"
-            )
+            lines.extend(_nonneg_ms_lines(indent + "  ", "__redu_on_ms", node.on_ms))
+            lines.extend(_nonneg_ms_lines(indent + "  ", "__redu_off_ms", node.off_ms))
             lines.append(f"{indent}  int __redu_times = static_cast<int>({_emit_expr(node.times)});")
             lines.append(f"{indent}  if (__redu_times < 0) {{ __redu_times = 0; }}")
             lines.append(f"{indent}  for (int __redu_i = 0; __redu_i < __redu_times; ++__redu_i) {{")
@@ -2368,7 +2379,7 @@ def _emit_block(
             lines.append(f"{indent}  if (__redu_start < 0.0f) {{ __redu_start = 0.0f; }}")
             lines.append(f"{indent}  float __redu_end = static_cast<float>({end_expr});")
             lines.append(f"{indent}  if (__redu_end < 0.0f) {{ __redu_end = 0.0f; }}")
-            lines.append(f"{indent}  unsigned long __redu_total = static_cast<unsigned long>({duration_expr});")
+            lines.extend(_nonneg_ms_lines(indent + "  ", "__redu_total", node.duration_ms))
             lines.append(f"{indent}  int __redu_steps = static_cast<int>({steps_expr});")
             lines.append(f"{indent}  if (__redu_steps < 1) {{ __redu_steps = 1; }}")
             lines.append(
